@@ -278,6 +278,10 @@ def gen_item_C16(rng, idx, tier):
     case = gen.gen_compute_case(rng, maxpix=36 if tier == 'quick' else 60)
     case['dtype'] = 'float64'
     case['layout'] = 'C'
+    if case['minv'] != 'min' and case['minv'][1] == 2 ** 40:
+        # gen's float32 special (a threshold 2**-40 below a data value): the value maps below add offsets of up to
+        # 2**30, and `a*thr + b` must stay exactly representable in float64 -- the same cut as a half-integer
+        case['minv'] = [2 * ((case['minv'][0] + 1) // 2 ** 40) - 1, 2]
     if case.get('adj') != 'grid':
         case['adj'] = 'grid'
     case['crits'] = [c for c in case.get('crits', []) if c[0] != 'sum']
